@@ -269,6 +269,40 @@ func storedChecks(f *failer, outer any, isObj bool) {
 	case at.Object:
 		check("Ego", d.Ego())
 	}
+	// repeated storage through NewListOf: every slot hands back the identical derived value
+	if try(func() {
+		rep := at.NewListOf(outer, 3)
+		for i := 0; i < 3; i++ {
+			check(fmt.Sprintf("NewListOf(x,3).Get(%d)", i), rep.Get(i))
+		}
+	}) {
+		f.fail("NewListOf with a derived value panicked")
+	}
+	// fluent returns of tree-form calls whose path descends into nested containers: still the receiver's outer value
+	switch d := outer.(type) {
+	case at.Object:
+		if try(func() {
+			d.SetTF(".zz-c19n.a.b", 1)
+			check("Object.SetTF(nested path) return", d.SetTF(".zz-c19n.a.c", 2))
+			check("Object.UnsetTF(nested path) return", d.UnsetTF(".zz-c19n.a.b"))
+			check("Object.UnsetTF(nested path through a list) return", d.SetTF(".zz-c19n.l#0.k", 1).UnsetTF(".zz-c19n.l#0.k"))
+			check("Object.UnsetTF(single segment) return", d.UnsetTF(".zz-c19n"))
+		}) {
+			f.fail("tree-form writes with nested paths on a derived object panicked")
+		}
+	case at.List:
+		if try(func() {
+			n := d.Count()
+			check("List.SetTF(nested path) return", d.SetTF(fmt.Sprintf("#%d.a.b", n), 1))
+			check("List.UnsetTF(nested path) return", d.UnsetTF(fmt.Sprintf("#%d.a.b", n)))
+			check("List.UnsetTF(index) return", d.UnsetTF(fmt.Sprintf("#%d", n)))
+			if d.Count() != n {
+				f.fail("tree-form round trip on a derived list left %d elements instead of %d", d.Count(), n)
+			}
+		}) {
+			f.fail("tree-form writes with nested paths on a derived list panicked")
+		}
+	}
 	// the kind reported for the stored value, and tree-form writes THROUGH it: they must reach the derived value and leave it
 	// where it is (an intermediate of the right kind is reused, C11), so every retrieval still hands back the identical value
 	if try(func() {
@@ -353,6 +387,37 @@ func asyncCase(r *R, kind, n, procs int, delayPattern int) *Case {
 	case 0, 1:
 		l := at.NewList(vals...)
 		before := canon(l)
+		// a second list with nested containers: the callback must receive the stored containers themselves (as ForEach does)
+		if kind == 0 && n > 0 {
+			nested := at.NewList()
+			for i := 0; i < n; i++ {
+				switch i % 3 {
+				case 0:
+					nested.Add(at.NewObject("i", i))
+				case 1:
+					nested.Add(at.NewList(i))
+				default:
+					nested.Add(i)
+				}
+			}
+			var idMu sync.Mutex
+			nested.ForEachAsync(func(i int, x any) {
+				if x != nested.Get(i) {
+					idMu.Lock()
+					f.fail("ForEachAsync handed the callback a different value than Get(%d) (a copy of the stored container?)", i)
+					idMu.Unlock()
+				}
+				if o, ok := x.(at.Object); ok {
+					o.Set("seen", true)
+				}
+			})
+			for i := 0; i < n; i += 3 {
+				if !nested.GetObject(i).KeyExists("seen") {
+					f.fail("a change the ForEachAsync callback made to the nested object at %d was lost", i)
+					break
+				}
+			}
+		}
 		if kind == 0 {
 			ret := l.ForEachAsync(func(i int, x any) {
 				delay(i)
@@ -578,6 +643,9 @@ func readersCase(r *R, goroutines int) *Case {
 
 func genC15(r *R, n int, tier string, out *Out) {
 	sizes := []int{0, 1, 2, 7, 64}
+	if thorough {
+		sizes = append(sizes, 257, 1000)
+	}
 	procs := []int{1, 2, 4, 16}
 	for i := 0; i < n; i++ {
 		if i%5 == 4 {
